@@ -134,7 +134,7 @@ func c07Setup(c *fw.Ctx, sha256fmt bool) *c07Env {
 	for _, o := range env.all {
 		ids = append(ids, o.OID)
 	}
-	gp.MustRunIn([]byte(strings.Join(ids, "\n")+"\n"), "pack-objects", "-q", "--window=10", "--depth=50", filepath.Join(env.packed, "objects/pack/pack"))
+	gp.C("pack.threads=1").MustRunIn([]byte(strings.Join(ids, "\n")+"\n"), "pack-objects", "-q", "--window=10", "--depth=50", filepath.Join(env.packed, "objects/pack/pack"))
 	gp.MustRun("prune-packed", "-q")
 	cnt := gp.MustRun("count-objects", "-v").S()
 	if !strings.Contains(cnt, "count: 0") {
@@ -403,7 +403,7 @@ func c07Report(c *fw.Ctx, envs []*c07Env, env *c07Env, objs []c07Obj, cfg c07Cfg
 	min := fw.MinSeq(objs, nil, func(o []c07Obj) bool { return full(env, o, cfg) == what })
 	// then replace each distinct object (all its occurrences at once, so that a
 	// repeated request stays repeated) by the simplest one that still fails
-	for k := 0; k < len(min); k++ {
+	for k := 0; k < len(min) && !c07HasDup(min); k++ {
 		cur := min[k]
 		first := true
 		for j := 0; j < k; j++ {
@@ -435,6 +435,18 @@ func c07Report(c *fw.Ctx, envs []*c07Env, env *c07Env, objs []c07Obj, cfg c07Cfg
 				break
 			}
 		}
+	}
+	if c07HasDup(min) {
+		// one defect (the request list is not de-duplicated) whatever the objects
+		// and the configuration: one key per way git refuses the result
+		var orig []string
+		for _, o := range objs {
+			orig = append(orig, o.Name)
+		}
+		c.Fail(what+" :: request names an object twice", what+": "+detail+" ["+cfg.String()+" "+bFmtName(env.sha256)+"]", map[string]any{
+			"format": bFmtName(env.sha256), "config": cfg.String(), "request": orig, "minimal_request": c07Names(min),
+			"replay": "objects = c07Universe(format); packfile.NewEncoder(w, storage, ref).Encode(hashes(request), window); git index-pack --strict; git verify-pack -v"})
+		return min
 	}
 	// simplest configuration / format that still fails, one dimension at a time
 	bestEnv, bestCfg := env, cfg
@@ -574,98 +586,119 @@ func runC07(c *fw.Ctx) {
 	pdir := c.TempDir("c07packs")
 	mdir := c.TempDir("c07min")
 
-	// ---- phase 1: encode + independent reading
 	var mu sync.Mutex
 	distinct := map[string]*c07Pack{}
-	var order []*c07Pack
 	type failure struct {
 		j            job
 		what, detail string
 	}
 	var failures []failure
-	c.ParDo(len(jobs), 0, func(i int) {
-		j := jobs[i]
-		pack, info, what, detail := c07Encode(j.env, j.objs, j.cfg)
-		c.Eval()
-		if what != "" {
+	lapAdd := func(name string) {
+		phases[name] += c.Elapsed().Seconds() - t0
+		t0 = c.Elapsed().Seconds()
+	}
+	nDistinct := 0
+	allJobs := jobs
+	// one size class after the other, each through all three phases, so that a
+	// deadline only cuts the largest requests
+	for lo := 0; lo < len(allJobs); {
+		hi := lo
+		for hi < len(allJobs) && len(allJobs[hi].objs) == len(allJobs[lo].objs) {
+			hi++
+		}
+		jobs := allJobs[lo:hi]
+		lo = hi
+		var order []*c07Pack
+		if c.Expired() {
+			c.Incomplete(fmt.Sprintf("requests of %d objects and larger not run", len(jobs[0].objs)))
+			break
+		}
+		// ---- phase 1: encode + independent reading
+		c.ParDo(len(jobs), 0, func(i int) {
+			j := jobs[i]
+			pack, info, what, detail := c07Encode(j.env, j.objs, j.cfg)
+			c.Eval()
+			if what != "" {
+				mu.Lock()
+				failures = append(failures, failure{j, what, detail})
+				mu.Unlock()
+				return
+			}
+			depthClass := info.maxDepth
+			if depthClass > 3 {
+				depthClass = 3 + info.maxDepth/10
+			}
+			c.Class(fmt.Sprintf("n=%d deltas=%d depth=%d ref=%v dup=%v", minInt(info.nEnt, 6), minInt(info.nDelta, 4), depthClass, j.cfg.Ref && info.nDelta > 0, info.dupIn))
+			key := bFmtName(j.env.sha256) + hex.EncodeToString(info.trailer)
 			mu.Lock()
-			failures = append(failures, failure{j, what, detail})
+			if _, ok := distinct[key]; !ok {
+				p := &c07Pack{env: j.env, bytes: append([]byte{}, pack...), objs: j.objs, cfg: j.cfg, info: info}
+				distinct[key] = p
+				order = append(order, p)
+			}
 			mu.Unlock()
-			return
-		}
-		depthClass := info.maxDepth
-		if depthClass > 3 {
-			depthClass = 3 + info.maxDepth/10
-		}
-		c.Class(fmt.Sprintf("n=%d deltas=%d depth=%d ref=%v dup=%v", minInt(info.nEnt, 6), minInt(info.nDelta, 4), depthClass, j.cfg.Ref && info.nDelta > 0, info.dupIn))
-		key := bFmtName(j.env.sha256) + hex.EncodeToString(info.trailer)
-		mu.Lock()
-		if _, ok := distinct[key]; !ok {
-			p := &c07Pack{env: j.env, bytes: append([]byte{}, pack...), objs: j.objs, cfg: j.cfg, info: info}
-			distinct[key] = p
-			order = append(order, p)
-		}
-		mu.Unlock()
-		if i%997 == 3 {
-			c.Sample(map[string]any{"request": c07Names(j.objs), "config": j.cfg.String(), "format": bFmtName(j.env.sha256), "entries": info.nEnt, "deltas": info.nDelta, "max_depth": info.maxDepth, "pack_bytes": len(pack)})
-		}
-	})
-	lap("encode")
-	sort.Slice(order, func(i, j int) bool {
-		if len(order[i].objs) != len(order[j].objs) {
-			return len(order[i].objs) < len(order[j].objs)
-		}
-		return bytes.Compare(order[i].info.trailer, order[j].info.trailer) < 0
-	})
-	c.Extra("distinct_packs", len(order))
+			if i%997 == 3 {
+				c.Sample(map[string]any{"request": c07Names(j.objs), "config": j.cfg.String(), "format": bFmtName(j.env.sha256), "entries": info.nEnt, "deltas": info.nDelta, "max_depth": info.maxDepth, "pack_bytes": len(pack)})
+			}
+		})
+		lapAdd("encode")
+		sort.Slice(order, func(i, j int) bool {
+			if len(order[i].objs) != len(order[j].objs) {
+				return len(order[i].objs) < len(order[j].objs)
+			}
+			return bytes.Compare(order[i].info.trailer, order[j].info.trailer) < 0
+		})
+		nDistinct += len(order)
 
-	// ---- phase 2: git index-pack --strict on every distinct pack
-	c.ParDo(len(order), 0, func(i int) {
-		p := order[i]
-		c.Eval()
-		base, what, detail := c07Git(p.env, p.objs, p.bytes, p.info, pdir)
-		if what != "" {
-			mu.Lock()
-			failures = append(failures, failure{job{p.env, p.objs, p.cfg}, what, detail})
-			mu.Unlock()
-			return
-		}
-		p.base = base
-	})
-	lap("index-pack")
+		// ---- phase 2: git index-pack --strict on every distinct pack
+		c.ParDo(len(order), 0, func(i int) {
+			p := order[i]
+			c.Eval()
+			base, what, detail := c07Git(p.env, p.objs, p.bytes, p.info, pdir)
+			if what != "" {
+				mu.Lock()
+				failures = append(failures, failure{job{p.env, p.objs, p.cfg}, what, detail})
+				mu.Unlock()
+				return
+			}
+			p.base = base
+		})
+		lapAdd("index-pack")
 
-	// ---- phase 3: git verify-pack -v, many packs per process
-	const batch = 40
-	nb := (len(order) + batch - 1) / batch
-	c.ParDo(nb, 0, func(b int) {
-		for k, env := range envs {
-			var args []string
-			var ps []*c07Pack
-			for i := b * batch; i < (b+1)*batch && i < len(order); i++ {
-				if order[i].base != "" && order[i].env == envs[k] {
-					args = append(args, order[i].base+".idx")
-					ps = append(ps, order[i])
+		// ---- phase 3: git verify-pack -v, many packs per process
+		const batch = 40
+		nb := (len(order) + batch - 1) / batch
+		c.ParDo(nb, 0, func(b int) {
+			for k, env := range envs {
+				var args []string
+				var ps []*c07Pack
+				for i := b * batch; i < (b+1)*batch && i < len(order); i++ {
+					if order[i].base != "" && order[i].env == envs[k] {
+						args = append(args, order[i].base+".idx")
+						ps = append(ps, order[i])
+					}
+				}
+				if len(args) == 0 {
+					continue
+				}
+				r := env.g.Run(append([]string{"verify-pack", "-v"}, args...)...)
+				c.Evals(len(args))
+				if r.OK() {
+					continue
+				}
+				for k, a := range args { // find the culprits one by one
+					r1 := env.g.Run("verify-pack", "-v", a)
+					if !r1.OK() {
+						mu.Lock()
+						failures = append(failures, failure{job{ps[k].env, ps[k].objs, ps[k].cfg}, "git verify-pack rejects the pack", bFirstLine(r1.Err)})
+						mu.Unlock()
+					}
 				}
 			}
-			if len(args) == 0 {
-				continue
-			}
-			r := env.g.Run(append([]string{"verify-pack", "-v"}, args...)...)
-			c.Evals(len(args))
-			if r.OK() {
-				continue
-			}
-			for k, a := range args { // find the culprits one by one
-				r1 := env.g.Run("verify-pack", "-v", a)
-				if !r1.OK() {
-					mu.Lock()
-					failures = append(failures, failure{job{ps[k].env, ps[k].objs, ps[k].cfg}, "git verify-pack rejects the pack", bFirstLine(r1.Err)})
-					mu.Unlock()
-				}
-			}
-		}
-	})
-	lap("verify-pack")
+		})
+		lapAdd("verify-pack")
+	}
+	c.Extra("distinct_packs", nDistinct)
 
 	// ---- failures: minimise and report (same defect => same key)
 	sort.SliceStable(failures, func(i, j int) bool {
@@ -683,6 +716,7 @@ func runC07(c *fw.Ctx) {
 		names   map[string]int
 		ref     bool
 		storage string
+		dup     bool
 	}
 	var founds []found
 	for _, f := range failures {
@@ -692,6 +726,10 @@ func runC07(c *fw.Ctx) {
 		}
 		covered := false
 		for _, fd := range founds {
+			if fd.what == f.what && fd.dup && c07HasDup(f.j.objs) {
+				covered = true
+				break
+			}
 			if fd.what != f.what || fd.ref != f.j.cfg.Ref || fd.storage != f.j.cfg.Storage {
 				continue
 			}
@@ -714,7 +752,7 @@ func runC07(c *fw.Ctx) {
 		for _, o := range min {
 			mn[o.Name]++
 		}
-		founds = append(founds, found{f.what, mn, f.j.cfg.Ref, f.j.cfg.Storage})
+		founds = append(founds, found{f.what, mn, f.j.cfg.Ref, f.j.cfg.Storage, c07HasDup(min)})
 	}
 	lap("minimise")
 	c.Extra("phase_seconds", phases)
